@@ -252,8 +252,10 @@ def run_coq_cases(pid, header, check_fun, literals, shard_bytes=350_000, timeout
         fn = os.path.join(d, f"cases_{pid}_{k}.v")
         with open(fn, "w") as f:
             f.write(header + "\n")
-            f.write("Definition cases := [\n" + ";\n".join(l for _, l in sh) + "\n].\n")
-            f.write(f"Eval vm_compute in render (map {check_fun} cases).\n")
+            # the literal list is elaborated against the domain of the check function (a shard whose cases all carry e.g. None in
+            # some position would otherwise leave an implicit type unresolved)
+            f.write(f"Definition results := map {check_fun} [\n" + ";\n".join(l for _, l in sh) + "\n].\n")
+            f.write("Eval vm_compute in render results.\n")
         files.append(fn)
     results = [None] * len(literals)
     log = []
@@ -296,8 +298,9 @@ def run_coq_cases(pid, header, check_fun, literals, shard_bytes=350_000, timeout
 
 
 # --------------------------------------------------------------------------- implementation workers
-class CaseTimeout(Exception):
-    pass
+class CaseTimeout(BaseException):
+    """raised by the per-case alarm; a BaseException so that `except Exception` inside a run_impl cannot swallow it
+    (the implementation has known non-terminating loops outside the properties' preconditions)"""
 
 
 def _alarm(_s, _f):
@@ -319,12 +322,17 @@ def _worker_init(fn_module, fn_name):
     mod = importlib.import_module(fn_module)
     _WORK_FN = getattr(mod, fn_name)
     assert_repo_lapy()
+    try:        # a runaway case must not exhaust the machine: allocations beyond 12 GB fail with MemoryError inside the case
+        import resource
+        resource.setrlimit(resource.RLIMIT_AS, (12 << 30, 12 << 30))
+    except Exception:
+        pass
 
 
 def _worker_call(args):
     case, limit = args
     signal.signal(signal.SIGALRM, _alarm)
-    signal.setitimer(signal.ITIMER_REAL, limit)
+    signal.setitimer(signal.ITIMER_REAL, limit, 2.0)      # re-fires every 2 s until the case has been abandoned
     try:
         out = _WORK_FN(case)
     except CaseTimeout:
